@@ -103,6 +103,8 @@ def plan(tier):
     parts = 48 if tier == "quick" else 128
     shards = [{"kind": "pairs", "part": p, "parts": parts} for p in range(parts)]
     shards += [{"kind": "chains", "part": p, "parts": 8} for p in range(8)]
+    shards += [{"kind": "port-triples", "part": p, "parts": 8} for p in range(8)]
+    shards += [{"kind": "long-minors"}]
     if tier != "quick":
         shards += [{"kind": "triples", "part": p, "parts": 128} for p in range(128)]
     return shards
@@ -130,6 +132,26 @@ def cases(shard, tier):
                 if i % shard["parts"] == shard["part"]:
                     yield {"symbols": list(combo), "tier": tier, "chain_lookup_mask": mask}
                 i += 1
+        return
+    if shard["kind"] == "port-triples":
+        # three message definitions over two names: who may share a port-ID when it was added by a newer minor version
+        syms = [{"name": n, "ver": v, "kind": "message", "port": p, "layout": ["sealed", "sealed"]} for n in NAMES for v in ([1, 0], [1, 1], [2, 0]) for p in (None, 6200, 6201)]
+        i = 0
+        for t in itertools.combinations(range(len(syms)), 3):
+            if len({(syms[x]["name"], tuple(syms[x]["ver"])) for x in t}) < 3:
+                continue
+            if i % shard["parts"] == shard["part"]:
+                yield {"symbols": [syms[x] for x in t], "tier": tier, "placements": ["targets"]}
+            i += 1
+        return
+    if shard["kind"] == "long-minors":
+        # minor versions whose decimal strings do not sort like the numbers (9 vs 10, 2 vs 10, 25 vs 100, 3 vs 255)
+        for major in (0, 1):
+            for m1, m2 in ((9, 10), (2, 10), (25, 100), (3, 255), (10, 11), (99, 100)):
+                for p1, p2 in itertools.product((None, 6200, 6201), repeat=2):
+                    for kind in KINDS:
+                        pp = lambda p: None if p is None else PORT_TABLE[kind][p - 6200]  # noqa: E731
+                        yield {"symbols": [{"name": "r.A", "ver": [major, m1], "kind": kind, "port": pp(p1), "layout": ["sealed", "sealed"]}, {"name": "r.A", "ver": [major, m2], "kind": kind, "port": pp(p2), "layout": ["sealed", "sealed"]}], "tier": tier, "placements": ["targets"]}
         return
     if shard["kind"] == "pairs":
         syms = symbols(tier)
